@@ -247,6 +247,26 @@ def regime_functions(seed, sizes, per_size=1, logics=None, budget_ms=None):
     return out
 
 
+def regime_logics(seed, sizes=(150000, 800000), kind="func"):
+    """every fuse logic (both signature widths of the unsharded one) at sizes inside and at the upper end of the
+    range between the two regime switches (100000 keys for the unsharded logic, 800000 for the sharded ones): the
+    sharding, the graph set-up and the expansion factor must agree on which regime a size belongs to"""
+    r = random.Random(seed)
+    out = []
+    for n in sizes:
+        for lg, sg in (("shards", 2), ("noshards", 2), ("noshards", 1), ("fullsigs", 2)):
+            if kind == "func":
+                v, wide = value_recipe(r, n, 64, "bfv")
+                b = build(n, (lg, sg, "func", "bfv", "usize"), v=v)
+                out.append(episode([b] + func_queries(r, n, wide)[:3], kt="usize", kf=keyfn(r, "usize"), src="regime-logics",
+                                   budget_ms=180000))
+            else:
+                b = build(n, (lg, sg, "filter", "box", "u8"))
+                out.append(episode([b] + filter_queries(r, n, 8, probe=False)[:4], kt="usize", kf=keyfn(r, "usize"),
+                                   src="regime-logics", budget_ms=180000))
+    return out
+
+
 def peelers(seed, sizes=(800001,), budget_ms=None):
     """above 800000 keys the shards are peeled: the high-memory and the
     low-memory peeler, with one and with several threads, functions and filters"""
